@@ -4,8 +4,9 @@
     random / select oracles constrained by [env_ok]).  Quantifiers: every configuration, every
     handler script, every environment. *)
 From WM Require Import Base.Prelude Handler.Retry Handler.RetryMonitor Handler.RetryArith Handler.RetryProofs
-  Handler.RetryTrunc Handler.RetryConfig Handler.RetrySystem Handler.RetrySystemProofs.
-From Coq Require Import QArith Qminmax.
+  Handler.RetryTrunc Handler.RetryConfig Handler.RetrySystem Handler.RetrySystemProofs
+  Message.Model Handler.RouterHandle Handler.RetryRouter Handler.RetryRouterProofs Handler.RetryFloat Handler.RetryFloatProofs.
+From Coq Require Import QArith Qminmax Qround.
 Open Scope Z_scope.
 
 (** the handler is invoked 0,1,..,n in order; a successful result is the result of invocation n,
@@ -251,6 +252,69 @@ Theorem C12_gives_up_within_K_zero_waits : forall c h e K, env_ok c h e = true -
   late_ok K (obs_of e (retry c h e)) = true.
 Proof. exact retry_late_ok. Qed.
 
+(** ---- round "proofs 3" ---- *)
+(** Retry inside a Router (composition with C02's [handle]): every error result — retries
+    exhausted, context ended, MaxElapsedTime — is Nacked and nothing is published, not even the
+    messages failed attempts returned next to their errors *)
+Theorem C12_in_router_error_nacked : forall pk pb c h e, is_ok (r_out (retry c h e)) = false ->
+  retry_in_router pk pb c h e = Nacked
+  /\ publishes (snd (handle pk pb (retry_chain c h e))) = [].
+Proof. exact retry_error_nacked. Qed.
+(** a nil result is that of the first successful attempt n: exactly its outputs are published
+    (one call, in order) and the message is Acked iff they were accepted *)
+Theorem C12_in_router_success : forall pk pb c h e, is_ok (r_out (retry c h e)) = true ->
+  exists n, is_ok (h n) = true /\ (forall j, (j < n)%nat -> is_ok (h j) = false)
+    /\ retry_chain c h e = CR PreNone (Ret (fst (h n)))
+    /\ (retry_in_router pk pb c h e = Acked <-> handled_ok pk pb (CR PreNone (Ret (fst (h n)))) = true)
+    /\ (retry_in_router pk pb c h e = Nacked <-> handled_ok pk pb (CR PreNone (Ret (fst (h n)))) = false)
+    /\ publishes (snd (handle pk pb (retry_chain c h e))) = expected_publishes pk (CR PreNone (Ret (fst (h n)))).
+Proof. exact retry_success_in_router. Qed.
+Theorem C12_in_router_acked_only_if_handled : forall pk pb c h e,
+  retry_in_router pk pb c h e = Acked -> exists n, is_ok (h n) = true /\ r_out (retry c h e) = h n.
+Proof. exact retry_acked_only_if_handled. Qed.
+
+(** float64: with a rounding oracle obeying the two IEEE properties (representable values are
+    exact, relative error <= 2^-53) the Go computation of incrementCurrentInterval equals the
+    exact-rational model whenever the Multiplier is a positive dyadic n/2^p (every float64 is
+    dyadic), cur * n < 2^53 and MaxInterval * 2^p < 2^53 *)
+Theorem C12_float64_incr_exact : forall rnd, rnd_ok rnd -> forall c (np d : positive),
+  mult c = Z.pos np # d -> (exists p, d = pow2 p) ->
+  forall cur, 0 <= cur -> cur * Z.pos np < two53 ->
+  0 <= max_interval c -> max_interval c * Z.pos d < two53 ->
+  fl_incr_interval rnd c cur = incr_interval c cur.
+Proof. exact fl_incr_exact. Qed.
+(** outside that domain (and for the randomised value, which goes through several roundings) a
+    rounded non-negative value below 2^52 ns truncates within 1 ns of the exact one: the +-1 ns the
+    comparison tolerates *)
+Theorem C12_float64_truncation_within_one : forall rnd (x : Q), rnd_ok rnd ->
+  (0 <= x)%Q -> (x < inject_Z (2 ^ 52))%Q -> Z.abs (Qfloor (rnd x) - Qfloor x) <= 1.
+Proof. exact rounded_trunc_close. Qed.
+
+(** RandomizationFactor is not validated: for ANY factor >= 0 (also > 1) the value lies in
+    [floor(cur(1-rf)), ceil(cur(1+rf))]; a negative draw does not delay *)
+Theorem C12_randomization_any_factor : forall (rf rnd : Q) (cur : Z),
+  (0 <= rf)%Q -> 0 <= cur -> (0 <= rnd)%Q -> (rnd < 1)%Q ->
+  delay_lo rf cur <= rand_value rf rnd cur <= delay_hi rf cur.
+Proof. exact rand_value_bounds_any_rf. Qed.
+
+(** the Logger is handed, call after call, the error of the re-invocation that just failed
+    (1..f in order) — never an earlier attempt's *)
+Theorem C12_logger_gets_last_error : forall c h e, has_log c = true ->
+  log_errs h (r_trace (retry c h e))
+  = map (fun k => snd (h k)) (seq 1 (failed_retries h (r_trace (retry c h e)))).
+Proof. exact retry_log_errs. Qed.
+
+(** MaxElapsedTime / cancellation under the fair-select contract (at most K races lost to a
+    ready timer): once Done is ready at most K + 1 more iterations are entered — K retries, none
+    after a wait, and the one that gives up.  (The unconditional statement stays
+    C12_max_elapsed_gives_up_partial: the code leaves it to select's coin.) *)
+Theorem C12_gives_up_within_K_after_done : forall c h e K, env_ok c h e = true ->
+  (lost_races (t_done c e) (r_waits (retry c h e)) <= K)%nat ->
+  (length (filter (fun it => ctx_ready_at (t_done c e) (w_tnb it)) (r_waits (retry c h e))) <= K + 1)%nat
+  /\ forall it, In it (r_waits (retry c h e)) -> ctx_ready_at (t_done c e) (w_tnb it) = true ->
+       w_ctx it = false -> w_wait it <= 0.
+Proof. exact retry_gives_up_within_K. Qed.
+
 Print Assumptions C12_first_success_wins.
 Print Assumptions C12_attempt_bound.
 Print Assumptions C12_attempt_bound_nonpositive.
@@ -276,6 +340,14 @@ Print Assumptions C12_early_exit_only_on_ctx.
 Print Assumptions C12_gives_up_when_context_ends.
 Print Assumptions C12_max_elapsed_gives_up_partial.
 Print Assumptions C12_model_accepted.
+Print Assumptions C12_in_router_error_nacked.
+Print Assumptions C12_in_router_success.
+Print Assumptions C12_in_router_acked_only_if_handled.
+Print Assumptions C12_float64_incr_exact.
+Print Assumptions C12_float64_truncation_within_one.
+Print Assumptions C12_randomization_any_factor.
+Print Assumptions C12_gives_up_within_K_after_done.
+Print Assumptions C12_logger_gets_last_error.
 Print Assumptions C12_retry_after_context_end_only_without_wait.
 Print Assumptions C12_zero_wait_race_count.
 Print Assumptions C12_gives_up_within_K_zero_waits.
